@@ -16,7 +16,7 @@ import numpy
 from . import tlc
 
 DT = {'b': bool, 'i': int, 'f': float}
-ARGNAMES = {1: 'a1', 2: 'a2', 3: 'a3', 4: 'a4', 5: 'a5', 6: 'a6', 7: 'a7', 8: 'a8'}
+ARGNAMES = {1: 'a1', 2: 'a2', 3: 'a3', 4: 'a4', 5: 'a5', 6: 'a6', 7: 'a7', 8: 'a8', 9: 'a9'}
 
 
 def build(nodes):
@@ -216,14 +216,14 @@ def export(roots):
 # ---------------------------------------------------------------------------
 # environments
 
-ARGSH = {1: [2], 2: [2, 2], 3: [], 4: [3], 5: [2], 6: [2], 7: [2, 2, 2], 8: [3, 3]}
-ARGDT = {1: float, 2: float, 3: float, 4: float, 5: int, 6: bool, 7: float, 8: float}
+ARGSH = {1: [2], 2: [2, 2], 3: [], 4: [3], 5: [2], 6: [2], 7: [2, 2, 2], 8: [3, 3], 9: [4]}
+ARGDT = {1: float, 2: float, 3: float, 4: float, 5: int, 6: bool, 7: float, 8: float, 9: float}
 
 # integer data per argument id (flat); chosen to avoid ties/kinks where possible
 ENVS = [
-    {1: [1, 2], 2: [1, 2, 3, 5], 3: [2], 4: [1, 2, 3], 5: [1, 0], 6: [1, 0], 7: [1, 2, 3, 4, 5, 6, 7, 9], 8: [2, 1, 0, 1, 3, 1, 0, 1, 2]},
-    {1: [-2, 3], 2: [2, -1, 1, 3], 3: [-3], 4: [-1, 3, 2], 5: [0, 1], 6: [0, 1], 7: [-1, 2, -3, 1, 3, -2, 2, 1], 8: [1, -2, 3, 2, 1, -1, -3, 1, 2]},
-    {1: [3, -1], 2: [-3, 1, 2, -2], 3: [4], 4: [2, -2, 1], 5: [1, 1], 6: [1, 1], 7: [2, -1, 1, 3, -2, 1, -3, 2], 8: [-1, 3, 2, 1, -2, 3, 2, 1, -3]},
+    {1: [1, 2], 2: [1, 2, 3, 5], 3: [2], 4: [1, 2, 3], 5: [1, 0], 6: [1, 0], 7: [1, 2, 3, 4, 5, 6, 7, 9], 8: [2, 1, 0, 1, 3, 1, 0, 1, 2], 9: [1, 2, 3, 4]},
+    {1: [-2, 3], 2: [2, -1, 1, 3], 3: [-3], 4: [-1, 3, 2], 5: [0, 1], 6: [0, 1], 7: [-1, 2, -3, 1, 3, -2, 2, 1], 8: [1, -2, 3, 2, 1, -1, -3, 1, 2], 9: [-2, 1, 3, -1]},
+    {1: [3, -1], 2: [-3, 1, 2, -2], 3: [-4], 4: [2, -2, 1], 5: [1, 1], 6: [1, 1], 7: [2, -1, 1, 3, -2, 1, -3, 2], 8: [-1, 3, 2, 1, -2, 3, 2, 1, -3], 9: [2, -3, -1, 4]},
 ]
 
 
